@@ -530,11 +530,14 @@ def run(ctx):
     r1_reject_before_create(ctx, po)
     r2_templates(ctx, po)
     r2b_template_scan(ctx, po)
+    from rules import c06
+    c06.r6b_attribute_reads(ctx, po, rule_id='C13.R2c')
     r3_cipher_tables(ctx, po, pb)
     r4_truncation(ctx, po)
     r5_check_values(ctx, po)
     r6_caller_iv(ctx, po)
     c10.r3_stripped_length(ctx, [('ossl-file', po), ('botan-file', pb)], rule_id='C13.R7')
+    c10.r10_secret_measure(ctx, [('ossl-file', po), ('botan-file', pb)], rule_id='C13.R11')
     r8_unpad_coverage(ctx, po)
     r9_branch_agreement(ctx, po)
     r10_complete_fill(ctx, po)
